@@ -171,6 +171,8 @@ func (tmg *TCPMuxGroup) worker() {
 			tmg.acceptCh <- c
 		})
 		if err != nil {
+			// the group was closed meanwhile: nobody will ever take this connection
+			c.Close()
 			return
 		}
 	}
